@@ -172,9 +172,68 @@ def watch_clock_and_files(clock_shift):
     sys.addaudithook(audit)
 
 
+FILE_PROBES = set()
+
+
+def watch_file_probes():
+    """Which paths does code of the repository ask the file system about (exists / stat / listdir / open, directly or
+    through pathlib, glob, shutil ...)?  Recorded when the first frame outside the standard library is the repository's."""
+    import glob
+    stdlib = os.path.dirname(os.__file__)
+
+    def asker():
+        f = sys._getframe(2)
+        while f is not None and (f.f_code.co_filename.startswith(stdlib) or f.f_code.co_filename.startswith('<')):
+            if f.f_code.co_filename.startswith('<frozen importlib'):
+                return False                  # the import system looking for a module
+            f = f.f_back
+        if f is None:
+            return False
+        name = f.f_code.co_filename
+        return '/pykdebugparser/' in name and '/verif/' not in name and '/site-packages/' not in name
+
+    def note(path):
+        try:
+            p = os.fspath(path)
+            p = p.decode() if isinstance(p, bytes) else p
+        except TypeError:
+            return
+        package = os.path.join(os.path.realpath(os.environ._real.get('VERIF_REPO', '/repo')), 'pykdebugparser')
+        if isinstance(p, str) and not os.path.realpath(p).startswith(package) and not package.startswith(os.path.realpath(p)):
+            FILE_PROBES.add(os.path.abspath(p))
+
+    def wrap(mod, attr):
+        real = getattr(mod, attr)
+
+        def probe(path='.', *a, **kw):
+            if asker():
+                note(path)
+            return real(path, *a, **kw)
+        probe.__name__ = attr
+        setattr(mod, attr, probe)
+    for mod, attr in ((os, 'stat'), (os, 'lstat'), (os, 'access'), (os, 'listdir'), (os, 'scandir'), (os.path, 'exists'),
+                      (os.path, 'isfile'), (os.path, 'isdir'), (os.path, 'lexists'), (os.path, 'getsize'),
+                      (os.path, 'getmtime'), (glob, 'glob'), (glob, 'iglob')):
+        wrap(mod, attr)
+
+    def audit(event, args):
+        if event == 'open' and args and isinstance(args[0], (str, bytes)):
+            f = sys._getframe(1)
+            while f is not None and (f.f_code.co_filename.startswith(stdlib) or f.f_code.co_filename.startswith('<')):
+                if f.f_code.co_filename.startswith('<frozen importlib'):
+                    return
+                f = f.f_back
+            if f is not None:
+                name = f.f_code.co_filename
+                if '/pykdebugparser/' in name and '/verif/' not in name and '/site-packages/' not in name:
+                    note(args[0])
+    sys.addaudithook(audit)
+
+
 def install(host):
     os.environ = RecordingEnviron(os.environ)        # os.getenv() looks the name up in the os module: recorded too
     watch_clock_and_files(float(os.environ._real.get('VERIF_CLOCK_SHIFT', '0')))
+    watch_file_probes()
     if host == 'real':
         return
     # import everything third-party / stdlib that looks at the platform before the platform is disguised
@@ -369,4 +428,5 @@ if __name__ == '__main__':
     res['_env_reads'] = sorted(ENV_READS)
     res['_clock_reads'] = sorted(CLOCK_READS)
     res['_file_opens'] = sorted(FILE_OPENS)
+    res['_file_probes'] = sorted(FILE_PROBES)
     json.dump(res, sys.stdout)
